@@ -209,8 +209,10 @@ private:
             return nvar_;
         double delta = mean_ - other.mean_;
         return nvar_ + other.nvar_ +
-               (delta * delta) * (count_ * other.count_) /
-                   (count_ + other.count_);
+               (delta * delta) *
+                   (static_cast<double>(count_) *
+                    static_cast<double>(other.count_)) /
+                   static_cast<double>(count_ + other.count_);
     }
 
     //! number of values aggregated
